@@ -27,7 +27,7 @@ PROPS = {
         'design_ref': 'DESIGN.md section 5 C19',
     },
     'C20': {
-        'modules': FS_MODULES,
+        'modules': FS_MODULES + ['contracts.pack_swap'],
         'lemmas': ['contracts.lemmas:lemma_c20_fresh'],
         'level': 'proof',
         'bounded': [
@@ -38,6 +38,7 @@ PROPS = {
         'text': 'new_oid is proved to return old counter + 1 and to advance the counter, reading and writing it '
                 'inside one critical section of the storage lock; store is proved to raise the counter to any '
                 'larger stored oid; read_index is proved to return an oid >= every key of the rebuilt index; '
+                'FileStorage.pack is proved (frame, every path) not to touch the counter when it installs the packed index; '
                 'lemma C20.fresh: under OIDINV (counter >= every present or issued id) the result is fresh. '
                 'MappingStorage/DemoStorage allocation and restore/pack preservation only bounded.',
         'note': 'Thread schedules are reduced to lock ownership (T3). restore(), pack swap and DemoStorage probing '
@@ -130,7 +131,7 @@ PROPS = {
 }
 
 PROPS['C12'] = {
-    'modules': ['contracts.fs_format', 'contracts.tmpstore'],
+    'modules': ['contracts.fs_format', 'contracts.tmpstore', 'contracts.connection'],
     'lemmas': ['contracts.tmpstore:lemma_roundtrip'],
     'level': 'proof',
     'bounded': [
@@ -143,9 +144,16 @@ PROPS['C12'] = {
             'indexes it, load returns exactly the stored (data, serial) for every indexed oid under TMPINV and '
             'delegates otherwise, reset cuts the file at the savepoint position and installs index and creating '
             'maps EQUAL TO AND NOT ALIASED WITH the savepoint\'s (ownership of the immutable state tuple); lemma: '
-            'load after store is the identity. Connection-level rollback/commit of savepoints: bounded programs.',
-    'note': 'Connection._rollback_savepoint/_commit_savepoint/_abort_savepoint and blob files inside savepoints are '
-            'covered by the bounded program harness only (labelled), not proved.',
+            'load after store is the identity. Over the ghost universe of persistent objects (C11 model): '
+            'Connection._rollback_savepoint proved - registered objects aborted, objects created after the savepoint '
+            'disowned, every cached object with a record written at or after the saved position a ghost, every object '
+            'not concerned untouched, the savepoint storage reset to the saved state (an invalidation that is exact '
+            'about positions verifies, an off-by-one does not); Connection._commit_savepoint proved - on EVERY exit back on '
+            'the real storage with the savepoint storage closed and every created object listed in _creating and every '
+            'index oid in _modified, on normal return every index oid stored in this transaction.',
+    'note': 'Connection.savepoint/_abort_savepoint, Savepoint objects, blob files inside savepoints and the interplay '
+            'with cacheGC are covered by the bounded program harness only (labelled), not proved. TmpStore.reset/load/'
+            'close are used through their contracts (A-PERSISTENT, A-PICKLECACHE, CONNINV assumed as in C11).',
     'design_ref': 'DESIGN.md section 5 C12',
 }
 
